@@ -268,6 +268,25 @@ CHECKS = {
         'denylists (hash, cipher, table look-up) outside; the real prime '
         'fields only through toy curves and concrete boundary encodings in '
         'the replay oracle'),
+    'C10': (
+        True, '5/C10',
+        'symbolic execution of the real PointTable / BatchDL / '
+        'BatchDLOfDifferences / ExtendedBatchDL on a cyclic-group model of '
+        'the curve with symbolic exponents (pysym); z3 decides that every '
+        'exponent below the bound is returned',
+        'Bounded symbolic model checking of the search index arithmetic: '
+        'BatchDL returns e for EVERY 0 <= e < n, for n in 17 sizes up to 40 '
+        '(every n <= 96), lists of 1..3 targets, on a fresh curve object and '
+        'after 6 histories of earlier BatchDL / BatchDLOfDifferences calls '
+        'that leave larger or smaller cached tables (n up to 80 (96)); both '
+        'keys of every pair at distance < max_diff are flagged and identical '
+        'keys are not (max_diff 2..8 (16), 2..3 keys, history list); every '
+        'key w*2^(8j) and every repeated 32-bit word (also negated) is '
+        'returned by ExtendedBatchDL on the secp256r1 order and a 72-bit '
+        'order with BatchDL by contract.',
+        'group-law primitives by contract on exponents mod q (C11); BatchDL '
+        'contract inside ExtendedBatchDL with scenario-fixed spurious hits; '
+        'counterexamples replayed on real secp256r1 arithmetic'),
 }
 
 NOT_APPLICABLE = {
